@@ -282,7 +282,7 @@ func init() {
 	register(&Prop{
 		ID: "C02",
 		Rule: "1..22 constraints over 1..10 variables, each drawn from clause / at-least-k / at-most-k / at-most-1 / exactly-1 / >= / <= / = with coefficients in [-W,W] (W in 3, 9, 2^20; zero coefficients included) and degrees from below the minimum to above the maximum of the left-hand side, mixed with unit constraints; through ParseCardConstrs (unit-weight kinds) or ParsePBConstrs. Each variable occurs at most once per constraint. Non-trivial = status undetermined after parsing (search ran) or at least one parse-time unit; distinct = distinct constraint list + front-end.",
-		Slices: []SliceRef{{"XPBPROP", 800, 30000}},
+		Slices: []SliceRef{{"XPBPROP", 800, 30000}, {"XPBWATCH", 500, 20000}},
 		Gens: []Gen{
 			{Name: "mixed", Weight: 1, Make: func(r *Rng, tier string) interface{} { return genConstrCase(r, tier) }},
 			{Name: "searchy", Weight: 2, Make: func(r *Rng, tier string) interface{} { return genSearchyCase(r, tier) }},
